@@ -40,10 +40,13 @@ fn ex(k: u32) -> SimpleExpr {
     }
 }
 fn cond(k: u32) -> Condition {
-    match k % 4 {
+    match k % 6 {
         0 => Cond::any().add(ex(k)).add(ex(k + 1)),
         1 => Cond::all().add(ex(k)),
         2 => Cond::all().not().add(ex(k)).add(Cond::any().add(ex(k + 1)).add(ex(k + 2))),
+        // member-less groups still render a predicate (FALSE, NOT TRUE): "no members" is not "no condition"
+        4 => Cond::any(),
+        5 => Cond::all().not(),
         _ => Cond::any().add(ex(k)),
     }
 }
